@@ -17,13 +17,16 @@ pub fn exec(rec: &Value, _st: &mut State) -> Value {
     match op {
         "cast" => {
             let s = (2.0f64).powi(gi_or(rec, "sc", 0) as i32);
-            let pts: Vec<Point2> = gvvi(rec, "pts").iter().map(|p| Point2::new(p[0] as f64 * s, p[1] as f64 * s)).collect();
+            // `off`: polyline and line origin are translated by that lattice vector (geometry far from the origin); reported points are
+            // translated back, line parameters are not affected
+            let (ox, oy) = match rec.get("off") { Some(_) => { let v = gvi(rec, "off"); (v[0] as f64, v[1] as f64) } None => (0.0, 0.0) };
+            let pts: Vec<Point2> = gvvi(rec, "pts").iter().map(|p| Point2::new((p[0] as f64 + ox) * s, (p[1] as f64 + oy) * s)).collect();
             let line = Polyline::new(pts.clone(), None);
             // optional curve tolerance (sixteenths of a lattice unit): crossings closer together than the tolerance are still two crossings
             let ctol = match gi_or(rec, "ctol16", 0) { 0 => s / 1048576.0, k => k as f64 / 16.0 * s };
             let curve = Curve2::from_points(&pts, ctol, false).expect("curve");
             let o = gvi(rec, "o");
-            let origin = Point2::new(o[0] as f64 * s, o[1] as f64 * s);
+            let origin = Point2::new((o[0] as f64 + ox) * s, (o[1] as f64 + oy) * s);
             let mut outs = vec![];
             // nzd = 1: a zero direction component is handed over as -0.0 (what `-v`, reversed() or a half-turn make of it): the same line
             let nzd = gi_or(rec, "nzd", 0) == 1;
@@ -36,11 +39,11 @@ pub fn exec(rec: &Value, _st: &mut State) -> Value {
                 let cints: Vec<Vec<i64>> = curve.ray_intersections(&ray).iter().map(|(t, i)| vec![q.q(*t / s, QT), *i as i64]).collect();
                 let sp = match spanning_ray(&line, &ray) {
                     None => json!({"some": false, "o": [0, 0], "d": [0, 0]}),
-                    Some(sr) => { let r = sr.ray(); json!({"some": true, "o": [q.q(r.origin.x / s, QS), q.q(r.origin.y / s, QS)], "d": [q.q(r.dir.x / s, QS), q.q(r.dir.y / s, QS)]}) }
+                    Some(sr) => { let r = sr.ray(); json!({"some": true, "o": [q.q(r.origin.x / s - ox, QS), q.q(r.origin.y / s - oy, QS)], "d": [q.q(r.dir.x / s, QS), q.q(r.dir.y / s, QS)]}) }
                 };
                 let csp = match curve.try_create_spanning_ray(&ray) {
                     None => json!({"some": false, "o": [0, 0], "d": [0, 0]}),
-                    Some(sr) => { let r = sr.ray(); json!({"some": true, "o": [q.q(r.origin.x / s, QS), q.q(r.origin.y / s, QS)], "d": [q.q(r.dir.x / s, QS), q.q(r.dir.y / s, QS)]}) }
+                    Some(sr) => { let r = sr.ray(); json!({"some": true, "o": [q.q(r.origin.x / s - ox, QS), q.q(r.origin.y / s - oy, QS)], "d": [q.q(r.dir.x / s, QS), q.q(r.dir.y / s, QS)]}) }
                 };
                 let mx = match max_intersection(&line, &ray) { None => json!({"some": false, "tq": 0}), Some(t) => json!({"some": true, "tq": q.q(t / s, QT)}) };
                 let far = q.q(farthest_point_direction_distance(&line, &ray) / s, QT);
